@@ -59,15 +59,18 @@ def print_sequence(self, x, y, z):
     self.out(Instruction(OpCode.OUT, IoOp.REGISTER, Register.RESULT))
     self.out(Instruction(OpCode.OUT, IoOp.PRINT))                    # print z
     self.flush()                                                     # end of script
+    self._reg.result = x                                             # the NEXT script, same process: a fresh line
+    self.out(Instruction(OpCode.OUT, IoOp.REGISTER, Register.RESULT))
+    self.out(Instruction(OpCode.OUT, IoOp.PRINT))
 '''
-c = contract(VI, 'print_sequence', serves=['C19'], src=SRC, name='lemma:print x print y println print z <end> (production binding)')
+c = contract(VI, 'print_sequence', serves=['C19', 'C17'], src=SRC, name='lemma:print x print y println print z <end>; next script prints x (production binding)')
 def _setup(b, case):
     m = lib.machine(b, 'LOGICAL', lib.light_set_with(b, {}))
     b.ghost('Out', PyList())
     return {'self': m.attrs['_vm_io'], 'x': b.sym('int', 'x'), 'y': b.sym('real', 'y'), 'z': b.sym('int', 'z')}
 c.setup(_setup)
 # whether the unterminated last line gets a final line break is not stated by the property: both accepted
-c.ensures('text-space-text-newline-text', "out_is(x, ' ', y, '\\n', z, '\\n') or out_is(x, ' ', y, '\\n', z)")
+c.ensures('text-space-text-newline-text-then-the-next-script-starts-unseparated', "out_is(x, ' ', y, '\\n', z, '\\n', x) or out_is(x, ' ', y, '\\n', z, x)")
 
 # ---- printf
 for fmt, nfields in (('{} and {}\\n', 2), ('{1}-{0} {hue:.1f} {v}', 2), ('no fields', 0), ('{:>6} {saturation} {w}', 1)):
@@ -79,7 +82,7 @@ for fmt, nfields in (('{} and {}\\n', 2), ('{1}-{0} {hue:.1f} {v}', 2), ('no fie
         m = lib.machine(b, 'LOGICAL', lib.light_set_with(b, {}))
         io = m.attrs['_vm_io']
         vals = [b.sym(vkind, 'p%d' % i) for i in range(nfields)]
-        io.attrs['_unnamed'].items.extend(vals)
+        b.I.getattr_(io, '_unnamed').items.extend(vals)
         reg = lib.sym_regs(b, m, 'real', ('hue', 'saturation'))
         v, w = b.sym('int', 'var_v'), b.sym(vkind, 'var_w')
         m.attrs['_call_stack'].attrs['_top'].attrs['vars'].d.update({'v': v, 'w': w})
@@ -97,3 +100,53 @@ for fmt, nfields in (('{} and {}\\n', 2), ('{1}-{0} {hue:.1f} {v}', 2), ('no fie
     call = ', '.join(x for x in (args, named) if x)
     c.ensures('as-str-format-would', "len(ghost('Calls')) == 1 and ghost('Calls')[0][2][0] == %r.format(%s)" % (real, call))
     c.ensures('pending-values-consumed', 'len(self._unnamed) == 0')
+
+
+# ---- pending values belong to ONE machine: another job starting (its Machine.reset) must not discard or mix them
+c = contract(VI, 'two_jobs', serves=['C19', 'C17'], name='lemma:job A collected a value; job B starts; A prints', src='''
+def two_jobs(io_a, machine_b, x):
+    from bardolph.vm.instruction import Instruction
+    from bardolph.vm.vm_codes import OpCode
+    from bardolph.lib import std_out_output
+    std_out_output.configure()
+    io_a._reg.result = x
+    io_a.out(Instruction(OpCode.OUT, IoOp.REGISTER, Register.RESULT))    # print x ... (value collected)
+    machine_b.reset()                                                    # meanwhile another job starts
+    io_a.out(Instruction(OpCode.OUT, IoOp.PRINT))                        # ... the print itself
+''')
+def _setup(b, case):
+    ma = lib.machine(b, 'LOGICAL', lib.light_set_with(b, {}))
+    mb = b.new(b.cls('bardolph.vm.machine', 'Machine'))
+    b.ghost('Out', PyList())
+    return {'io_a': ma.attrs['_vm_io'], 'machine_b': mb, 'x': b.sym('int', 'x')}
+c.setup(_setup)
+c.ensures('a-prints-its-own-value', 'out_is(x)')
+
+
+# ---- the compiler side of printf: the format handed to the VM is the RESOLVED text (a literal's text or the value of the
+#      macro named), one value phrase per positional field ({} or {n}), named fields take no value
+from . import parserlib as PL
+IOP = 'bardolph/parser/io_parser.py'
+for how in ('literal', 'macro'):
+    for fmt, npos in (('{} and {}\\n', 2), ('{1}-{0} {hue:.1f} {v}', 2), ('no fields', 0), ('{:>6} {saturation} {w}', 1), ('{{}} {}', 1)):
+        c = contract(IOP, 'IoParser.printf', serves=['C19', 'C06'], uses=('parser',), name='IoParser.printf[%s %r]' % (how, fmt))
+        def _setup(b, case, how=how, fmt=fmt):
+            if how == 'literal':
+                tok = PL.concrete_token(b.I, 'LITERAL_STRING', fmt)
+            else:
+                tok = PL.concrete_token(b.I, 'NAME', 'fmt_macro')
+            pr = PL.parser(b, first_token=PL.concrete_token(b.I, 'PRINTF'), then=(tok,))
+            if how == 'macro':
+                symcls = b.cls('bardolph.lib.symbol', 'Symbol')
+                styp = b.cls('bardolph.lib.symbol', 'SymbolType')
+                sym = PyObj(symcls, {'_name': 'fmt_macro', '_symbol_type': styp.members['MACRO'], '_value': fmt})
+                for table in (pr.attrs['_context'].attrs['_globals'], pr.attrs['_context'].attrs['_locals']):
+                    b.I.ghost['symbols'][(id(table), repr('fmt_macro'))] = sym
+            iop = b.new(('bardolph.parser.io_parser', 'IoParser'), pr)
+            return {'self': iop, '_p': pr}
+        c.setup(_setup)
+        c.ensures('accept-or-message', 'result is True or (falsy(result) and errs() > old(errs()))')
+        c.ensures('one-value-per-positional-field-then-the-resolved-format',
+                  "result is True ==> len(emitted(_p)) == %d and instr(emitted(_p)[-1], 'OUT', IoOp.PRINTF) and emitted(_p)[-1].param1 == %r and %s"
+                  % (2 * npos + 1, fmt, ' and '.join(["is_seg(emitted(_p)[%d], 'value') and instr(emitted(_p)[%d], 'OUT', IoOp.REGISTER, Register.RESULT)" % (2 * i, 2 * i + 1)
+                                                      for i in range(npos)]) or 'True'))
